@@ -2977,7 +2977,8 @@ enum respond_t { RESPONSE_DEFAULT, RESPONSE_DROP, RESPONSE_SEND };
  */
 static enum respond_t
 no_response(coap_pdu_t *request, coap_pdu_t *response,
-            coap_session_t *session, coap_resource_t *resource) {
+            coap_session_t *session, coap_resource_t *resource,
+            int resource_flags) {
   coap_opt_t *nores;
   coap_opt_iterator_t opt_iter;
   unsigned int val = 0;
@@ -3018,20 +3019,20 @@ no_response(coap_pdu_t *request, coap_pdu_t *response,
     } else if (resource && session->context->mcast_per_resource &&
                coap_is_mcast(&session->addr_info.local)) {
       /* Handle any mcast suppression specifics if no NoResponse option */
-      if ((resource->flags &
+      if ((resource_flags &
            COAP_RESOURCE_FLAGS_LIB_ENA_MCAST_SUPPRESS_2_XX) &&
           COAP_RESPONSE_CLASS(response->code) == 2) {
         return RESPONSE_DROP;
-      } else if ((resource->flags &
+      } else if ((resource_flags &
                   COAP_RESOURCE_FLAGS_LIB_ENA_MCAST_SUPPRESS_2_05) &&
                  response->code == COAP_RESPONSE_CODE(205)) {
         if (response->data == NULL)
           return RESPONSE_DROP;
-      } else if ((resource->flags &
+      } else if ((resource_flags &
                   COAP_RESOURCE_FLAGS_LIB_DIS_MCAST_SUPPRESS_4_XX) == 0 &&
                  COAP_RESPONSE_CLASS(response->code) == 4) {
         return RESPONSE_DROP;
-      } else if ((resource->flags &
+      } else if ((resource_flags &
                   COAP_RESOURCE_FLAGS_LIB_DIS_MCAST_SUPPRESS_5_XX) == 0 &&
                  COAP_RESPONSE_CLASS(response->code) == 5) {
         return RESPONSE_DROP;
@@ -3096,6 +3097,8 @@ handle_request(coap_context_t *context, coap_session_t *session, coap_pdu_t *pdu
   coap_string_t *uri_path = NULL;
   int observe_action = COAP_OBSERVE_CANCEL;
   coap_block_b_t block;
+  int resource_flags = 0;
+  int handler_called = 0;
   int added_block = 0;
   coap_lg_srcv_t *free_lg_srcv = NULL;
 #if COAP_Q_BLOCK_SUPPORT
@@ -3506,6 +3509,9 @@ handle_request(coap_context_t *context, coap_session_t *session, coap_pdu_t *pdu
   /*
    * Call the request handler with everything set up
    */
+  /* The handler may delete its resource (a DELETE handler typically does) */
+  resource_flags = resource->flags;
+  handler_called = 1;
   if (resource == &resource_uri_wellknown) {
     /* Leave context locked */
     coap_log_debug("call handler for pseudo resource '%*.*s' (3)\n",
@@ -3549,6 +3555,8 @@ handle_request(coap_context_t *context, coap_session_t *session, coap_pdu_t *pdu
   }
 
 skip_handler:
+  if (!handler_called && resource)
+    resource_flags = resource->flags;
   if (send_early_empty_ack &&
       response->type == COAP_MESSAGE_ACK) {
     /* Response is now separate - convert to CON as needed */
@@ -3558,7 +3566,9 @@ skip_handler:
       goto drop_it_no_debug;
     }
   }
-  respond = no_response(pdu, response, session, resource);
+  /* (resource may have been deleted by its handler: only its address and the
+   * flags saved before the call are used from here on) */
+  respond = no_response(pdu, response, session, resource, resource_flags);
   if (respond != RESPONSE_DROP) {
 #if (COAP_MAX_LOGGING_LEVEL >= _COAP_LOG_DEBUG)
     coap_mid_t mid = pdu->mid;
@@ -3591,7 +3601,7 @@ skip_handler:
     if (!coap_is_mcast(&session->addr_info.local) ||
         (context->mcast_per_resource &&
          resource &&
-         (resource->flags & COAP_RESOURCE_FLAGS_LIB_DIS_MCAST_DELAYS))) {
+         (resource_flags & COAP_RESOURCE_FLAGS_LIB_DIS_MCAST_DELAYS))) {
       /* No delays to response */
 #if COAP_Q_BLOCK_SUPPORT
       if (session->block_mode & COAP_BLOCK_USE_LIBCOAP &&
